@@ -345,6 +345,43 @@ def smooth_case(draw):
     return c
 
 
+def float32_body(c):
+    """the same specification loaded while the default dtype is float32 (the library's default; torchtree's
+    main sets it from --dtype): every tip must still sit at its sampling time to single precision *of the
+    height*, and heights / branch lengths must follow"""
+    topo = phylo.case_topo(c)
+    n = topo.n
+    g = geometry(c, c["tree"])
+    names, dates, h = g[1], g[2], g[4]
+    tip_h = c["tree"]["tip_heights"]
+    kind = c["tree"]["kind"]
+    res = Res(nontrivial=max(tip_h) > 0 and c["tree"]["calendar"], key=(sorted(sorted(x) for x in topo.clades()), [round(x, 9) for x in tip_h], c["tree"]["calendar"], kind),
+              labels=("float32", kind, "calendar" if c["tree"]["calendar"] else "ages"), tags={"cls": kind, "dtype": "float32"})
+    rows = params_tensor(c, [(c["tree"], h)], n)
+    old = torch.get_default_dtype()
+    torch.set_default_dtype(torch.float32)
+    try:
+        tree, dic = tt.build(tree_spec(dict(c, B=0), names, dates, topo, rows[:1]))
+        got = arr(tree.node_heights).reshape(-1)
+        bl = arr(tree.branch_lengths()).reshape(-1)
+    finally:
+        torch.set_default_dtype(old)
+    H = max(1.0, max(h.values()))
+    tips = got[:n]
+    if maxabs(tips, np.array(tip_h)) > 2e-6 * max(1.0, max(tip_h)):
+        return res.fail("tip_not_at_sampling_time_float32", {"got": tips.tolist(), "want": tip_h, "dates": dates})
+    want = np.array([h[i] for i in range(2 * n - 1)])
+    if maxabs(got, want) > 2e-5 * H:
+        return res.fail("heights_float32", {"got": got.tolist(), "want": want.tolist()})
+    return res
+
+
+@st.composite
+def float32_case(draw):
+    c = draw(case(nmax=10, force_batch=0))
+    return c
+
+
 def topo_cases(tier):
     import os
 
@@ -394,5 +431,6 @@ def subchecks(tier):
         Sub("random", body, strategy=lambda: case(nmax=40), quick=600, thorough=15000, pretags=pretags),
         Sub("all_topologies", body, enumerate=topo_cases, expand=expand_topo, exhaustive=(tier == "thorough"), pretags=pretags),
         Sub("device_dtype", device_body, strategy=device_case, quick=300, thorough=4000, pretags=pretags),
+        Sub("float32", float32_body, strategy=float32_case, quick=200, thorough=3000, pretags=pretags),
         Sub("smooth_shift", smooth_body, strategy=smooth_case, quick=200, thorough=3000, pretags=pretags),
     ]
